@@ -13,6 +13,7 @@ VIEW View
 INVARIANT OnlyAuthentic
 INVARIANT NeverOlder
 INVARIANT NodeCleanup
+INVARIANT FailedStayOut
 INVARIANT Confluence
 INVARIANT CodeWithinSpec
 INVARIANT EmitScripts
